@@ -241,7 +241,7 @@ contract('mapproxy.cache.legend:LegendCache.store', props=['C06'],
          opaque=['write_atomic', 'legend_hash', 'ensure_directory'],
          raises={'OSError': True, 'ValueError': True},
          trace=[_only_write_atomic(lambda ex, st, post, e: ex.opaque_field_at(st, e, post.env['legend'], 'location').val,
-                                   skipped_if=lambda ex, st, post: ex.truth(st, ex.opaque_field(st, post.env['legend'], 'stored'))),
+                                   skipped_if=lambda ex, st, post: ex.truth(st, ex.opaque_field(post.old if getattr(post, 'old', None) is not None else st, post.env['legend'], 'stored'))),
                 _legend_payload_and_location])
 
 cls('mapproxy.seed.util:ProgressStore', fields=dict(filename='str', status='opaque'))
